@@ -251,3 +251,85 @@ Theorem src_binomialGA individ mutant CR ds child ds' :
   exists j, (j < length individ)%nat /\ nth j child 0 = nth j mutant 0 /\
     forall i, (i < length individ)%nat -> nth i child 0 = nth i mutant 0 \/ nth i child 0 = nth i individ 0.
 Proof. intros Hv Hl H. rewrite code_binomialGA in H. exact (binomial_at_least_one individ mutant CR ds child ds' Hv Hl H). Qed.
+
+(* ---------- uniform_tournament_crossover (plain numpy: reshape, fancy indexing, row-wise argmax) ---------- *)
+Lemma pairs2_winners fitness : forall (t : list Z), Forall (fun v => 0 <= v) t ->
+  map (fun p => get2 (pairs2 t) (fst p) (snd p))
+      (combine (map Z.of_nat (seq 0 (length (pairs2 t)))) (argmax_rows (gather2Q fitness (pairs2 t))))
+  = pair_winners fitness t.
+Proof.
+  (* generalised over an offset so that the row index and the remaining pairs stay aligned *)
+  assert (H : forall (t : list Z) (pre : list (list Z)), Forall (fun v => 0 <= v) t ->
+    map (fun p => get2 (pre ++ pairs2 t) (fst p) (snd p))
+        (combine (map Z.of_nat (seq (length pre) (length (pairs2 t)))) (argmax_rows (gather2Q fitness (pairs2 t))))
+    = pair_winners fitness t).
+  { fix IH 1. intros [|a [|b t]] pre Hnn; try reflexivity.
+    inversion Hnn as [|? ? Ha Hnn']; subst. inversion Hnn' as [|? ? Hb Hnn'']; subst.
+    cbn [pairs2 length seq map gather2Q argmax_rows combine pair_winners].
+    f_equal.
+    - cbn [fst snd]. unfold get2. rewrite getR_nat, app_nth2, Nat.sub_diag by lia. cbn [nth].
+      unfold gatherQz. cbn [map]. unfold argmaxZ, argmax. cbn [argmax_from].
+      rewrite !getQ_nonneg by assumption.
+      destruct (Qltb (nth (Z.to_nat a) fitness 0%Q) (nth (Z.to_nat b) fitness 0%Q)); reflexivity.
+    - specialize (IH t (pre ++ [[a; b]]) Hnn''). rewrite app_length in IH. cbn [length] in IH.
+      replace (length pre + 1)%nat with (Datatypes.S (length pre)) in IH by lia.
+      rewrite <- IH. apply map_ext_in. intros p _. now rewrite <- app_assoc. }
+  intros t Hnn. exact (H t [] Hnn).
+Qed.
+
+Lemma pairs2_length : forall (t : list Z) (n : nat), length t = (2 * n)%nat -> length (pairs2 t) = n.
+Proof.
+  fix IH 1. intros [|a [|b t]] n H; cbn [length] in H.
+  - destruct n; [reflexivity|lia].
+  - lia.
+  - destruct n as [|n]; [lia|]. cbn [pairs2 length]. f_equal. apply IH. lia.
+Qed.
+
+Lemma pair_winners_props fitness : forall (t : list Z) (k : Z), Forall (fun v => 0 <= v < k) t ->
+  Forall (fun v => 0 <= v < k) (pair_winners fitness t).
+Proof.
+  fix IH 1. intros [|a [|b t]] k H; cbn [pair_winners]; try constructor.
+  - inversion H as [|? ? Ha H']; inversion H' as [|? ? Hb H'']; subst. destruct (Qltb _ _); assumption.
+  - inversion H as [|? ? Ha H']; inversion H' as [|? ? Hb H'']; subst. apply IH. assumption.
+Qed.
+Lemma pair_winners_length fitness : forall (t : list Z) (n : nat), length t = (2 * n)%nat -> length (pair_winners fitness t) = n.
+Proof.
+  fix IH 1. intros [|a [|b t]] n H; cbn [length] in H.
+  - destruct n; [reflexivity|lia].
+  - lia.
+  - destruct n as [|n]; [lia|]. cbn [pair_winners length]. f_equal. apply IH. lia.
+Qed.
+
+Theorem code_uniform_tournament_crossover ps fitness rank ds : valid_draws ds ->
+  py_uniform_tournament_crossover ps fitness rank ds = uniform_tournament_crossover ps fitness rank ds.
+Proof.
+  intro Hv. unfold py_uniform_tournament_crossover, uniform_tournament_crossover. cbv zeta. rewrite !bind_app, getR_0.
+  change (zlen (nth 0 ps [])) with (Z.of_nat (width ps)).
+  replace (2 * Z.of_nat (width ps)) with (Z.of_nat (2 * width ps)) by lia.
+  unfold zlen, row in *. rewrite code_random_sample by (left; reflexivity).
+  destruct (random_sample (Z.of_nat (length ps)) (2 * width ps) true ds) as [[t ds1]|] eqn:Ers; [|reflexivity].
+  destruct (random_sample_spec _ _ _ _ _ _ Hv Ers) as (Hl & Hr & _).
+  rewrite !ret_app. f_equal. f_equal.
+  assert (Hnn : Forall (fun v => 0 <= v) t) by (eapply Forall_impl; [|exact Hr]; simpl; intros; lia).
+  assert (Hpl : length (pairs2 t) = width ps) by (apply pairs2_length; exact Hl).
+  (* the winners *)
+  unfold pick2 at 2. unfold arange. rewrite Nat2Z.id.
+  rewrite <- Hpl at 1. rewrite (pairs2_winners fitness t Hnn).
+  (* the child *)
+  set (ch := pair_winners fitness t).
+  assert (Hchl : length ch = width ps) by (apply pair_winners_length; exact Hl).
+  assert (Hchn : Forall (fun v => 0 <= v) ch).
+  { eapply Forall_impl; [|exact (pair_winners_props fitness t _ Hr)]. simpl; intros; lia. }
+  unfold pick2, from_choice, build, gene.
+  apply (nth_ext _ _ 0 0).
+  - rewrite !map_length, combine_length, map_length, !seq_length, Hchl. lia.
+  - intros i Hi. rewrite map_length, combine_length, map_length, seq_length, Hchl, Nat.min_id in Hi.
+    rewrite (nth_map_default (fun p => get2 ps (fst p) (snd p)) _ i (0, 0) 0)
+      by (rewrite combine_length, map_length, seq_length, Hchl; lia).
+    rewrite combine_nth by (rewrite map_length, seq_length; lia).
+    cbn [fst snd]. rewrite (nth_map_default Z.of_nat _ i O 0) by (rewrite seq_length; lia).
+    rewrite seq_nth by lia.
+    rewrite (nth_map_default (fun i0 => nth i0 (nth (Z.to_nat (nth i0 ch 0)) ps []) 0) _ i O 0) by (rewrite seq_length; lia).
+    rewrite seq_nth by lia. cbn [Nat.add].
+    unfold get2. rewrite getZ_nat, getR_nonneg by (apply nth_nonneg; exact Hchn). reflexivity.
+Qed.
